@@ -39,9 +39,31 @@ def gen_cases(tier, seed):
     cat2 = P.catalogue(2, 2, 12, P.TYPES_SMALL)
     for i, tt in enumerate(cat2):
         yield ('C', i)
+    for n in (3, 4):
+        for dims in (1, 2):
+            yield ('K', n, dims)
+
+
+def block_patterns(n, dims):
+    """Contiguous-block patterns of an atom axis of size n: the whole axis, and every block b + X(m) + a (m = 1 is a
+    one-hot).  Such patterns arise from indexing (t[i] of a diagonal) and from json weights; pairs with equal `before`
+    and different `after` exercise the SumAxis cases of anti-unification."""
+    out = []
+    tail_p, tail_v = ((2,), (1,)) if dims == 2 else ((), ())
+    out.append(((n,) + tail_p, (0,) + tail_v))
+    for m in range(1, n):
+        for b in range(0, n - m + 1):
+            a = n - m - b
+            if m == 1:
+                out.append((tail_p, (('s', b, ('u',), a),) + tuple(v - 1 for v in tail_v)))
+            else:
+                out.append(((m,) + tail_p, (('s', b, 0, a),) + tail_v))
+    return out
 
 
 def describe(case):
+    if case[0] == 'K':
+        return {'part': 'block patterns on an atom axis', 'size': case[1], 'dims': case[2], 'patterns': [P.show(p) for p in block_patterns(case[1], case[2])]}
     cat = P.catalogue(2, 2, 18) if case[0] != 'C' else P.catalogue(2, 2, 12, P.TYPES_SMALL)
     tt = list(cat)[case[1]]
     return {'part': {'U': 'unary/structural', 'B': 'binary', 'C': 'compositions'}[case[0]], 'index_types': tt,
@@ -180,6 +202,13 @@ def run_case(case):
             part_binary(case, r)
         elif case[0] == 'C':
             part_comp(case, r)
+        elif case[0] == 'K':
+            pats = block_patterns(case[1], case[2])
+            ops = [o for o in binary_ops() if o[0] not in ('expand_as',)]
+            for pa in pats:
+                for pb in pats:
+                    for da, db in ((0., 0.), (0., 1.), (1., 5.), (-inf, -inf), (5., 0.)):
+                        one_binary(pa, pb, da, db, ops, r, extras=(da, db) == (0., 0.), warn_excl=True)
         elif case[0] == 'U1':
             _, p, d, storage, opname = case
             one_unary(p, d, storage, [o for o in unary_ops() if o[0] == opname], r, reshape=(opname in ('reshape', 'view', 'getitem-all')))
@@ -337,7 +366,7 @@ def part_binary(case, r):
                 one_binary(pa, pb, da, db, ops, r, extras=(da, db) in ((0., 0.), (5., 0.), (0., 1.)))
 
 
-def one_binary(pa, pb, da, db, ops, r, extras):
+def one_binary(pa, pb, da, db, ops, r, extras, warn_excl=False):
     import torch
     from fggs.indices import PatternedTensor, project
     desc = '%s default %r  vs  %s default %r' % (P.show(pa), da, P.show(pb), db)
@@ -364,7 +393,7 @@ def one_binary(pa, pb, da, db, ops, r, extras):
         except ptinv.RepInvariantError as e:
             bad(r, 'representation-invariant', name, '%s: %s' % (desc, e), sub, key)
         except Warning as w:
-            if name.startswith('bcast'):
+            if (name.startswith('bcast') or warn_excl) and 'antiunify' not in str(w):
                 # a one-hot row produced by __getitem__ on a product-typed axis meets a product pattern: the library
                 # itself declares this an index type mismatch, i.e. outside the well-typed scope
                 r.excl['composition leaves the well-typed scope (library warning)'] += 1
@@ -429,7 +458,10 @@ def one_binary(pa, pb, da, db, ops, r, extras):
         except ptinv.RepInvariantError as e:
             bad(r, 'representation-invariant', name, '%s: %s' % (desc, e), sub, key)
         except Warning as w:
-            bad(r, 'type-mismatch-warning', name, '%s: %s' % (desc, str(w)[:200]), sub, key)
+            if warn_excl and 'antiunify' not in str(w):
+                r.excl['composition leaves the well-typed scope (library warning)'] += 1
+            else:
+                bad(r, 'type-mismatch-warning', name, '%s: %s' % (desc, str(w)[:200]), sub, key)
         except Exception as e:
             r.exc(e, name, sub, key, msg='%s: %s raised %s: %s' % (desc, name, type(e).__name__, str(e)[:200]))
 
